@@ -4,7 +4,7 @@
      - explicit forward error bound (u = 2^-prec relative per operation, 2^(emin-1) absolute for the
        product only: the rounded sum of two floats never suffers an underflow error),
      - special values (sd = +-0, z = +-inf),
-     - exactness of the multiplication by a power of two.                                        *)
+     - exactness of the multiplication by a power of two (when the product is representable).                                        *)
 From Coq Require Import ZArith Bool Reals Lra Lia.
 From Flocq Require Import Core.Core Relative Plus_error Mult_error IEEE754.BinarySingleNaN.
 Open Scope R_scope.
@@ -282,31 +282,6 @@ Corollary rnd_pow2_scale (k : Z) (x : R) :
 Proof.
   intros H. apply round_generic; auto with typeclass_instances.
   apply pow2_scale_format; [apply rnd_format | exact H].
-Qed.
-
-(* and, in the normal range, with the rounding itself: fl(2^k * x) = 2^k * fl(x) *)
-Theorem rnd_pow2_commute (k : Z) (x : R) :
-  bpow radix2 (aemin + prec - 1) <= Rabs x ->
-  bpow radix2 (aemin + prec - 1) <= Rabs (bpow radix2 k * x) ->
-  rnd (bpow radix2 k * x) = bpow radix2 k * rnd x.
-Proof.
-  intros Hx Hkx.
-  assert (Nx : x <> 0).
-  { intros ->. rewrite Rabs_R0 in Hx. generalize (bpow_gt_0 radix2 (aemin + prec - 1)). lra. }
-  assert (Mx : (aemin + prec <= mag radix2 x)%Z).
-  { apply mag_ge_bpow. now replace (aemin + prec - 1)%Z with (aemin + prec - 1)%Z by ring. }
-  assert (Mkx : (aemin + prec <= mag radix2 x + k)%Z).
-  { rewrite <- mag_mult_bpow by exact Nx. apply mag_ge_bpow. now rewrite Rmult_comm. }
-  unfold rnd, round, F2R, scaled_mantissa, cexp; simpl.
-  rewrite (Rmult_comm (bpow radix2 k) x), mag_mult_bpow by exact Nx.
-  unfold afexp, FLT_exp.
-  rewrite !Z.max_l by lia.
-  replace (- (mag radix2 x + k - prec))%Z with (- (mag radix2 x - prec) + - k)%Z by ring.
-  rewrite bpow_plus. rewrite Rmult_assoc, <- (Rmult_assoc (bpow radix2 k)).
-  rewrite <- bpow_plus.
-  replace (k + (- (mag radix2 x - prec) + - k))%Z with (- (mag radix2 x - prec))%Z by ring.
-  replace (mag radix2 x + k - prec)%Z with (k + (mag radix2 x - prec))%Z by ring.
-  rewrite (bpow_plus radix2 k). ring.
 Qed.
 
 End Fmt.
